@@ -274,11 +274,11 @@ func (f *file) ReadBlobAt(length int, off int64) (b blob.Blob, n int, err error)
 	}
 	data, err := f.Data()
 	if err != nil {
-		return nil, 0, err
+		return nil, 0, &hackpadfs.PathError{Op: "readat", Path: f.path, Err: err}
 	}
 	b, err = blob.View(data, off, end)
 	if err != nil {
-		return nil, 0, err
+		return nil, 0, &hackpadfs.PathError{Op: "readat", Path: f.path, Err: err}
 	}
 	n = b.Len()
 	if off+int64(n) == max {
@@ -380,6 +380,9 @@ func (f *file) writeBlobAt(op string, p blob.Blob, off int64) (n int, err error)
 		f.updateModTime()
 	}
 	err = f.save()
+	if err != nil {
+		err = &hackpadfs.PathError{Op: op, Path: f.path, Err: err}
+	}
 	return
 }
 
@@ -426,7 +429,11 @@ func (f *file) Truncate(size int64) error {
 		}
 	}
 	f.updateModTime()
-	return f.save()
+	err := f.save()
+	if err != nil {
+		return &hackpadfs.PathError{Op: "truncate", Path: f.path, Err: err}
+	}
+	return nil
 }
 
 func (f *file) ReadDir(n int) ([]hackpadfs.DirEntry, error) {
@@ -503,5 +510,9 @@ func (f *file) Chmod(mode hackpadfs.FileMode) error {
 	}
 	newMode := (f.Mode() & ^chmodBits) | (mode & chmodBits)
 	f.modeOverride = &newMode
-	return f.save()
+	err := f.save()
+	if err != nil {
+		return &hackpadfs.PathError{Op: "chmod", Path: f.path, Err: err}
+	}
+	return nil
 }
